@@ -18,6 +18,7 @@ ADAPTATIONS = [
     'ctypes.c_short/c_long(.value) modelled as 16/64-bit wrap for symbolic ints',
     'signal.signal is a no-op inside harnesses',
     'int(str) model extended with blanks/sign prefix (validated against CPython)',
+    'float(str): well-formedness decided by a per-character state machine, well-formed numerals realised (validated against CPython)',
     'format(x, spec): symbolic ints/strs kept symbolic for empty and <N/>N specs',
     'math.floor/ceil(symbolic int) -> the int itself (no realisation)',
     'format(sym int, "0Nx") -> opaque placeholder (diagnostic messages only)',
@@ -146,7 +147,10 @@ def install():
                 st = 1
                 neg = (ch == '-')
                 continue
-            if ch in _PLAIN_INVALID:
+            # printable ASCII other than digits, sign, blank and '_' can
+            # never be part of an int() literal (numeric tests only: a
+            # set/str membership test would hash -- realise -- the char)
+            if 33 <= o <= 126 and o != 95:
                 raise ValueError('invalid literal for int()')
             # anything else ('_', other whitespace, unicode digits, ...):
             # fall back to CPython on the realised value
@@ -159,6 +163,62 @@ def install():
         return -ret if neg else ret
 
     EXTRA[builtins.int] = _int_ext
+
+    # 6b. float(str): decide well-formedness symbolically (per-character
+    #     state machine); only well-formed numerals are realised
+    def _float_ext(val=0.0):
+        with NoTracing():
+            symstr = isinstance(val, AnySymbolicStr)
+        if not symstr:
+            return float(val)  # next layer: CrossHair's own patch
+        n = len(val)
+        st = 0   # 0 lead blanks, 1 after sign, 2 int digits, 3 after '.',
+        #          4 fraction digits, 5 trailing blanks
+        ndig = 0
+        i = 0
+        fallback = False
+        while i < n:
+            ch = val[i]
+            i += 1
+            o = ord(ch)
+            if o == 32:
+                if st == 0 or st == 5:
+                    continue
+                if st in (2, 3, 4) and ndig > 0:
+                    st = 5
+                    continue
+                raise ValueError('could not convert string to float')
+            if 48 <= o <= 57:
+                if st == 5:
+                    raise ValueError('could not convert string to float')
+                ndig += 1
+                st = 4 if st in (3, 4) else 2
+                continue
+            if o == 43 or o == 45:
+                if st != 0:
+                    raise ValueError('could not convert string to float')
+                st = 1
+                continue
+            if o == 46:
+                if st in (0, 1, 2):
+                    st = 3
+                    continue
+                raise ValueError('could not convert string to float')
+            # letters that occur in exponents / inf / nan / infinity, '_'
+            # and anything outside printable ASCII: let CPython decide
+            if o in (95, 69, 101, 73, 105, 78, 110, 70, 102, 65, 97, 84,
+                     116, 89, 121) or o < 33 or o > 126:
+                fallback = True
+                break
+            raise ValueError('could not convert string to float')
+        if not fallback and ndig == 0:
+            raise ValueError('could not convert string to float')
+        with NoTracing():
+            from crosshair.core import realize
+            concrete = realize(val)
+            return float(concrete)
+
+    EXTRA[builtins.float] = _float_ext
 
     # 7. format() keeping symbolic ints / strs symbolic for alignment specs
 
@@ -256,6 +316,59 @@ def validate_int_model():
         got = _int_model_ref(s)
         if got != exp:
             return 'int model mismatch on %r: %r vs %r' % (s, got, exp)
+    return None
+
+
+def _float_model_ref(val):
+    st = 0
+    ndig = 0
+    for ch in val:
+        o = ord(ch)
+        if o == 32:
+            if st in (0, 5):
+                continue
+            if st in (2, 3, 4) and ndig > 0:
+                st = 5
+                continue
+            return 'err'
+        if 48 <= o <= 57:
+            if st == 5:
+                return 'err'
+            ndig += 1
+            st = 4 if st in (3, 4) else 2
+            continue
+        if o in (43, 45):
+            if st != 0:
+                return 'err'
+            st = 1
+            continue
+        if o == 46:
+            if st in (0, 1, 2):
+                st = 3
+                continue
+            return 'err'
+        if o in (95, 69, 101, 73, 105, 78, 110, 70, 102, 65, 97, 84, 116,
+                 89, 121) or o < 33 or o > 126:
+            return 'cpython'
+        return 'err'
+    if ndig == 0:
+        return 'err'
+    return 'ok'
+
+
+def validate_float_model():
+    import itertools
+    for L in range(0, 5):
+        for t in itertools.product('1.- +x', repeat=L):
+            s = ''.join(t)
+            try:
+                float(s)
+                exp = 'ok'
+            except ValueError:
+                exp = 'err'
+            got = _float_model_ref(s)
+            if got != 'cpython' and got != exp:
+                return 'float model mismatch on %r: %s vs %s' % (s, got, exp)
     return None
 
 
